@@ -455,3 +455,77 @@ func Harness_C03_concurrent() {
 	zzsym.Assert(ok[0] && !ok[1], "concurrent requests get the verdicts they get alone")
 	zzsym.Reach("c03.concurrent")
 }
+
+// one document per validation rule of the GraphQL specification (each invalid
+// only by that rule), against c03SDL
+var c03RuleDocs = []string{
+	`{ me { nam } }`,                                                        // FieldsOnCorrectType
+	`{ me { ... on ID { x } } }`,                                            // FragmentsOnCompositeTypes / KnownTypeNames
+	`{ me { friends(firs: 1) { id } } }`,                                    // KnownArgumentNames
+	`{ me @nope { id } }`,                                                   // KnownDirectives
+	`{ me { ...Missing } }`,                                                 // KnownFragmentNames
+	`subscription { me { id } }`,                                            // KnownRootType
+	`{ me { ... on Nope { id } } }`,                                         // KnownTypeNames
+	`{ me { id } } query B { me { id } }`,                                   // LoneAnonymousOperation
+	`{ me { ...F } } fragment F on User { id ...F }`,                        // NoFragmentCycles
+	`{ user(id: $id) { id } }`,                                              // NoUndefinedVariables
+	`{ me { id } } fragment Unused on User { id }`,                          // NoUnusedFragments
+	`query Q($x: Int) { me { id } }`,                                        // NoUnusedVariables
+	`{ me { a: id a: name } }`,                                              // OverlappingFieldsCanBeMerged
+	`{ me { ... on Query { me { id } } } }`,                                 // PossibleFragmentSpreads
+	`{ user { id } }`,                                                       // ProvidedRequiredArguments
+	`{ me }`,                                                                // ScalarLeafs (selection required)
+	`{ me { id { x } } }`,                                                   // ScalarLeafs (selection forbidden)
+	`{ user(id: "1", id: "2") { id } }`,                                     // UniqueArgumentNames
+	`{ me @skip(if: true) @skip(if: false) { id } }`,                        // UniqueDirectivesPerLocation
+	`{ me { ...F } } fragment F on User { id } fragment F on User { name } `, // UniqueFragmentNames
+	`query A { me { id } } query A { me { name } }`,                         // UniqueOperationNames
+	`query Q($x: Int, $x: Int) { me { friends(first: $x) { id } } }`,        // UniqueVariableNames
+	`{ me { friends(first: "one") { id } } }`,                               // ValuesOfCorrectType (wrong scalar)
+	`{ me { friends(first: {a: 1}) { id } } }`,                              // ValuesOfCorrectType (object for scalar)
+	`{ user(id: null) { id } }`,                                             // ValuesOfCorrectType (null for non-null)
+	`mutation { rename(name: 5) { id } }`,                                   // ValuesOfCorrectType (mutation)
+	`query Q($u: User) { me { id } }`,                                       // VariablesAreInputTypes
+	`query Q($n: String) { me { friends(first: $n) { id } } }`,              // VariablesInAllowedPosition
+	`query Q($id: ID) { user(id: $id) { id } }`,                             // VariablesInAllowedPosition (nullable into non-null)
+}
+
+func Setup_C03_rules() { Setup_C03_gates() }
+
+// Harness_C03_rules: a document violating any one validation rule of the
+// specification is rejected before any interceptor or resolver runs - with
+// suggestions on or off, with or without a query cache, and also after an
+// executor with suggestions disabled served a request in the same process
+// (the rule set it edits is global) - and is never cached.
+func Harness_C03_rules() {
+	c03Log = nil
+	di := zzsym.Choice("doc", len(c03RuleDocs))
+	if zzsym.Choice("prior", 2) == 1 {
+		other := New(c03ES{})
+		other.SetDisableSuggestion(true)
+		rc, errs := other.CreateOperationContext(graphql.StartOperationTrace(context.Background()), &graphql.RawParams{Query: `{ me { name } }`})
+		zzsym.Assert(len(errs) == 0 && rc != nil, "a valid request is accepted with suggestions disabled")
+		c03Log = nil
+	}
+	e := New(c03ES{})
+	e.Use(c03All{&c03Ext{idx: 0, mask: 15}})
+	var cache *c03Cache
+	if zzsym.Choice("cache", 2) == 1 {
+		cache = &c03Cache{stored: map[string]*ast.QueryDocument{}}
+		e.SetQueryCache(cache)
+	}
+	if zzsym.Choice("nosuggest", 2) == 1 {
+		e.SetDisableSuggestion(true)
+	}
+	ctx := graphql.StartOperationTrace(context.Background())
+	_, errs := e.CreateOperationContext(ctx, &graphql.RawParams{Query: c03RuleDocs[di]})
+	zzsym.Assert(len(errs) > 0, "a document that violates a validation rule is rejected")
+	for _, ev := range c03Log {
+		ran := len(ev) >= 3 && (ev[:3] == "op." || ev[:3] == "roo" || ev[:3] == "fie" || ev[:3] == "exe" || ev[:3] == "res")
+		zzsym.Assert(!ran, "nothing runs for a rejected document")
+	}
+	if cache != nil {
+		zzsym.Assert(len(cache.stored) == 0, "an invalid document is never cached")
+	}
+	zzsym.Reach("c03.rules")
+}
